@@ -223,6 +223,10 @@ func CalculateZA(pub *ecdsa.PublicKey, uid []byte) ([]byte, error) {
 	if uidLen > 0x1fff {
 		return nil, errors.New("sm2: the uid is too long")
 	}
+	// Coordinates wider than the field have no fixed-length encoding (FillBytes would panic).
+	if bitSize := pub.Curve.Params().BitSize; pub.X.BitLen() > bitSize || pub.Y.BitLen() > bitSize {
+		return nil, errors.New("sm2: invalid public key")
+	}
 	uidBitLength := uint16(uidLen) << 3
 	md := sm3.New()
 	md.Write([]byte{byte(uidBitLength >> 8), byte(uidBitLength)})
